@@ -250,7 +250,8 @@ def ep_gridsearch(c):
     box = {}
 
     def run():
-        box["g"] = ForecastingGridSearchCV(NaiveForecaster(strategy="mean"), cv=cv, param_grid=grid, scoring=scoring)
+        box["g"] = ForecastingGridSearchCV(NaiveForecaster(strategy="mean"), cv=cv, param_grid=grid, scoring=scoring,
+                                           strategy=c.get("strategy", "refit"))
         box["g"].fit(y, mk_X(c["X"], y), fh=mk_fh(c["fh"]))
     return _outcome(run, lambda: box["g"])
 
